@@ -1,4 +1,4 @@
-CONSTANT NP = 10
+CONSTANT NP = 11
 INIT Init
 NEXT Next
 CHECK_DEADLOCK FALSE
